@@ -100,7 +100,9 @@ const TFIELD: [&str; 4] = ["hour", "minute", "second", "nano"];
 
 /// the property's reading of "add `n` months" (n signed), independent of chrono
 fn ref_months(d: &NaiveDate, n: i128) -> Option<(i64, i64, i64)> {
-    let (y, m, dd) = ymd(d);
+    ref_months_ymd(ymd(d), n)
+}
+fn ref_months_ymd((y, m, dd): (i64, i64, i64), n: i128) -> Option<(i64, i64, i64)> {
     let total = y as i128 * 12 + (m as i128 - 1) + n;
     let ty = total.div_euclid(12);
     let tm = total.rem_euclid(12) as i64 + 1;
@@ -162,8 +164,24 @@ fn months_single(c: &mut Ctx, d: &NaiveDate, n: u32) {
             (Err(()), Some(w)) => c.fail(&format!("{name}: panics although the target month is in range"), &format!("{} n={n} want {:?}", desc(d), w)),
         }
     }
+    c.op(&format!("dox.months {n}"), &Months::new(n).as_u32().to_string());
     if Months::new(n).as_u32() != n {
         c.fail("Months::new / as_u32 do not carry the count unchanged", &format!("n={n}"));
+    }
+    // one month forward / back lands in Month::succ / Month::pred of the month, in a February of the right length
+    {
+        let mo = Month::try_from(d.month() as u8).unwrap();
+        for (sub, step) in [(false, mo.succ()), (true, mo.pred())] {
+            if let Ok(Some(x)) = guard(|| if sub { d.checked_sub_months(Months::new(1)) } else { d.checked_add_months(Months::new(1)) }) {
+                let len = step.num_days(x.year());
+                if x.month() != step.number_from_month() || len != Some(month_len(x.year() as i64, x.month() as i64) as u8) || x.day() > len.unwrap_or(0) as u32 {
+                    c.fail("one month away is not Month::succ / Month::pred with its calendar length", &format!("{} sub={sub} -> {}", desc(d), desc(&x)));
+                }
+                if step == Month::February {
+                    c.count(if len == Some(29) { "months:succ-pred:february-29" } else { "months:succ-pred:february-28" });
+                }
+            }
+        }
     }
     // delegations: NaiveDateTime keeps the time, DateTime<Utc>/<FixedOffset> go through the local value
     let t = gen_time(c);
@@ -232,16 +250,40 @@ fn zoned_months_op(c: &mut Ctx, dt: &DateTime<FixedOffset>, n: u32, sub: bool, c
         if n == 0 && (x != dt) {
             c.fail("DateTime +/- Months(0) is not the value itself", &detail);
         }
-        // reference wall clock (when both wall clocks are NaiveDateTimes)
-        if let (Ok(l), Ok(lx)) = (guard(|| dt.naive_local()), guard(|| x.naive_local())) {
-            if n > 0 {
-                match ref_months(&l.date(), if sub { -(n as i128) } else { n as i128 }) {
-                    Some(w) if ymd(&lx.date()) == w && lx.time() == l.time() => {}
-                    w => c.fail("DateTime +/- Months: the wall clock of the result is not the clamped day of the target month with the time of day kept", &format!("{detail} want {w:?}")),
+    }
+    // reference wall clocks, computed from the UTC readings' day numbers and the offset, so that wall clocks
+    // in the day before MIN / after MAX (not NaiveDateTimes) are judged too
+    if n > 0 {
+        let (wy, wm, wd, sod) = wall_ymd(dt);
+        let want = ref_months_ymd((wy, wm, wd), if sub { -(n as i128) } else { n as i128 });
+        // the instant of the stepped wall clock must be representable (its date in NaiveDate::MIN..=MAX)
+        let want = want.filter(|w| {
+            let inst = day_num(w.0, w.1, w.2) * 86400 + sod - dt.offset().local_minus_utc() as i64;
+            inst >= min_dn() * 86400 && inst <= max_dn() * 86400 + 86399
+        });
+        let headroom = { let n0 = day_num(wy, wm, wd); n0 < min_dn() || n0 > max_dn() };
+        match (&gop, want) {
+            (Ok(x), Some(w)) => {
+                let (xy, xm, xd, xsod) = wall_ymd(x);
+                if (xy, xm, xd) != w || xsod != sod || x.nanosecond() != dt.nanosecond() {
+                    c.fail("DateTime +/- Months: the wall clock of the result is not the clamped day of the target month with the time of day kept", &format!("{detail} want {w:?}"));
                 }
+                c.count(if headroom { "months-op:zoned:headroom-wall-clock:value" } else { "months-op:zoned:wall-clock-ok" });
             }
+            (Err(()), None) => c.count(if headroom { "months-op:zoned:headroom-wall-clock:panic" } else { "months-op:zoned:wall-clock-none" }),
+            (Ok(x), None) => c.fail("DateTime +/- Months: yields a value although the target month is out of range or its instant not representable", &format!("{detail} -> {x:?}")),
+            (Err(()), Some(w)) => c.fail("DateTime +/- Months: panics although the stepped wall clock is representable", &format!("{detail} want {w:?}")),
         }
     }
+}
+/// (year, month, day, second of day) of the wall clock of a zone-aware value, from the day number of its UTC
+/// reading (independent closed form) and its offset — defined also in the day before MIN / after MAX
+fn wall_ymd(z: &DateTime<FixedOffset>) -> (i64, i64, i64, i64) {
+    let u = z.naive_utc();
+    let wall = dn(&u.date()) * 86400 + u.time().num_seconds_from_midnight() as i64 + z.offset().local_minus_utc() as i64;
+    let day = wall.div_euclid(86400);
+    let (y, m) = ym_of_day_num(day);
+    (y, m, day - day_num(y, m, 1) + 1, wall.rem_euclid(86400))
 }
 fn in_utc(x: &NaiveDateTime) -> bool {
     *x >= DateTime::<Utc>::MIN_UTC.naive_utc() && *x <= DateTime::<Utc>::MAX_UTC.naive_utc()
